@@ -32,6 +32,7 @@ import (
 	"time"
 
 	"github.com/caddyserver/certmagic"
+	"github.com/quic-go/quic-go"
 	"github.com/quic-go/quic-go/http3"
 	"github.com/tmpim/casket"
 	"github.com/tmpim/casket/caskethttp/staticfiles"
@@ -111,6 +112,10 @@ func NewServer(addr string, group []*SiteConfig) (*Server, error) {
 				Handler:        s.Server.Handler,
 				TLSConfig:      s.Server.TLSConfig,
 				MaxHeaderBytes: s.Server.MaxHeaderBytes,
+			}
+			// the idle timeout of the listener's sites applies to HTTP/3 connections too
+			if s.Server.IdleTimeout > 0 {
+				s.quicServer.QUICConfig = &quic.Config{MaxIdleTimeout: s.Server.IdleTimeout}
 			}
 		}
 
